@@ -677,7 +677,7 @@ func init() {
 						mkOp(1, "SCAN", "0", "MATCH", g.pick("k[a-c]", "k[a-d]", "k[b-d]*", "[j-k]?", "k[^a-b]"), "COUNT", "1000"), mkOp(1, "HSCAN", k, "0", "MATCH", g.pick("f[1-3]", "f[1-4]", "f[2-4]", "[e-f]*"), "COUNT", "1000"),
 						mkOp(1, "SSCAN", k, "0", "MATCH", g.pick("[a-c]", "[a-d]", "[b-d]", "[^a-c]"), "COUNT", "1000"), mkOp(1, "KEYS", g.pick("k[a-c]", "k[a-d]", "k[b-d]")),
 						mkOp(1, "SETBIT", k, g.pick("3", "100", "1000"), "1"), mkOp(1, "BITFIELD", k, "SET", "u8", g.pick("0", "64", "800"), "7"), mkOp(1, "BITFIELD", k, "INCRBY", "u8", g.pick("8", "400"), "1"),
-						mkOp(1, "SETRANGE", k, g.pick("0", "50"), "zz"), mkOp(1, "APPEND", k, "tail"), mkOp(1, "LSET", k, "0", "z"), mkOp(1, "HSET", k, "f1", "w"), mkOp(1, "SADD", k, "zz"), mkOp(1, "INCRBYFLOAT", k, "1.5"),
+						mkOp(1, "SETRANGE", k, g.pick("0", "50"), "zz"), mkOp(1, "APPEND", k, "tail"), mkOp(1, "LSET", k, "0", "z"), mkOp(1, "HSET", k, "f1", "w"), mkOp(1, "SADD", k, "zz"), mkOp(1, "INCRBY", k, "3"),
 						mkOp(1, "SINTERCARD", "1", k), mkOp(1, "HSTRLEN", k, "f1"), mkOp(1, "LPOS", k, "a"), mkOp(1, "SMISMEMBER", k, "a", "b"), mkOp(1, "HMGET", k, "f1", "f2")}[g.r.Intn(29)]
 				}
 				if g.chance(0.12) {
